@@ -477,10 +477,10 @@ class MirxProp:
         nucleo_props.write_gen(sc, "quick", small=False)
         env = sc.env(small=False)
         env["CARGO_TARGET_DIR"] = sc.dir + "/miri-target"
-        env["NUCLEO_VERIF_MIRI_READER"] = reader
+        sc.write_gen("miri_reader.rs", 'pub const MIRI_READER: &str = "%s";\n' % reader)
         tail = ""
         for sd in (1, 2, 3):
-            env["MIRIFLAGS"] = "-Zmiri-seed=%d" % sd
+            env["MIRIFLAGS"] = "-Zmiri-seed=%d -Zmiri-preemption-rate=0.05" % sd
             p = subprocess.run(["cargo", "+nightly", "miri", "test", "--offline", "-p", "nucleo", "--lib", "verif::miri_h::race_probe"],
                                cwd=repo, env=env, capture_output=True, text=True, timeout=1800)
             out = p.stdout + p.stderr
